@@ -146,6 +146,41 @@ pub fn dims_polygon<S: Src>(s: &mut S) {
     core::mem::forget(mp);
 }
 
+/// the clauses of `dims_polygon`, one per harness (the combined harness gave no verdict in 30 min)
+pub fn dims_polygon_part<S: Src>(s: &mut S, part: u8) {
+    let (a, b, c) = (gp(s, 2), gp(s, 2), gp(s, 2));
+    vassume!(orient(a, b, c) != 0); // valid polygon
+    match part {
+        0 => {
+            let p = poly_i(&[a, b, c, a], &[]);
+            check_dims(&p, (D2, D1), false);
+            core::mem::forget(p);
+        }
+        1 => {
+            let e = poly_i(&[], &[]);
+            check_dims(&e, (Empty, Empty), true);
+            core::mem::forget(e);
+        }
+        2 => {
+            let p = poly_i(&[a, b, c, a], &[]);
+            let e = poly_i(&[], &[]);
+            check_matrix(&p, &e, (D2, D1), (Empty, Empty));
+            core::mem::forget(p);
+            core::mem::forget(e);
+        }
+        3 => {
+            let mp = MultiPolygon(vec![poly_i(&[], &[]), poly_i(&[a, b, c, a], &[])]);
+            check_dims(&mp, (D2, D1), false);
+            core::mem::forget(mp);
+        }
+        _ => {
+            let gp_ = Geometry::Polygon(poly_i(&[a, b, c, a], &[]));
+            check_dims(&gp_, (D2, D1), false);
+            core::mem::forget(gp_);
+        }
+    }
+}
+
 pub fn dims_multipoint<S: Src>(s: &mut S) {
     let (a, b) = (gp(s, 2), gp(s, 2));
     let g = MultiPoint(vec![Point(ci(a)), Point(ci(b))]);
@@ -218,6 +253,11 @@ harnesses! {
     #[kani::unwind(6)] fn c01_dims_linestring_3(s) { dims_linestring(s, 3) }
     #[kani::unwind(6)] fn c01_dims_linestring_4(s) { dims_linestring(s, 4) }
     #[kani::unwind(7)] fn c01_dims_polygon(s) { dims_polygon(s) }
+    #[kani::unwind(7)] fn c01_dims_polygon_p0(s) { dims_polygon_part(s, 0) }
+    #[kani::unwind(7)] fn c01_dims_polygon_p1(s) { dims_polygon_part(s, 1) }
+    #[kani::unwind(7)] fn c01_dims_polygon_p2(s) { dims_polygon_part(s, 2) }
+    #[kani::unwind(7)] fn c01_dims_polygon_p3(s) { dims_polygon_part(s, 3) }
+    #[kani::unwind(7)] fn c01_dims_polygon_p4(s) { dims_polygon_part(s, 4) }
     #[kani::unwind(5)] fn c01_dims_multipoint(s) { dims_multipoint(s) }
     #[kani::unwind(6)] fn c01_dims_mls(s) { dims_mls(s, Some(false)) }
     #[kani::unwind(6)] fn c01_dims_mls_kf_closed_loop(s) { dims_mls(s, Some(true)) }
